@@ -42,6 +42,14 @@ Example C12_taiko_example :
   taiko_accepts i = true /\ taiko_state_list (taiko_generate i) = [97; 83; 14; 3].
 Proof. vm_compute. split; reflexivity. Qed.
 
-(* catch and mania: not proved (C12_catch_partial / C12_mania_partial would be the same
-   record of facts); catch is modelled and checked by correspondence, mania by the direct
-   oracle only.  See DESIGN.md. *)
+(* catch: for EVERY attribute shape and every combination of provided values (no acceptance
+   hypothesis needed): misses within the palpable objects, fruits + droplets + misses = fruits +
+   droplets of the map, a kind that was not provided stays within its own maximum, combo within the
+   achievable one and below a provided one, tiny droplets / tiny droplet misses non-negative and
+   within the map's tiny droplets *)
+Theorem C12_catch_state_consistent : forall i : catch_in, catch_in_ok i -> catch_gs_ok i (catch_generate i).
+Proof. exact catch_generate_ok. Qed.
+Print Assumptions C12_catch_state_consistent.
+
+(* mania: not proved (C12_mania_partial would be the same record of facts); checked by the direct
+   oracle on the implementation.  See DESIGN.md. *)
